@@ -24,7 +24,9 @@ The clauses (numbering of DESIGN.md §3 C11):
                   directly below the defining component only — deeper folds inherit it through the
                   context — so "defined outside the fold" must be read as "defined in the parent
                   component"; tags defined further out are in the import list of a fold further
-                  out.  The Rust list may contain duplicates: F-10.);
+                  out.);  `wfImportsDistinct`: the list has no repetition (a tag used several
+                  times inside one fold is imported once — `reference_tag` since the repair of
+                  F-10; before it the list could contain a field twice);
 7. `wfVars`       every `Argument::Variable` use (vertex filters and post-filters) names a variable
                   of the query-level map whose type there is a scalar-only subtype of the type
                   recorded at the use (`vref.variable_type.is_scalar_only_subtype(var_type)`).
@@ -175,6 +177,21 @@ def wfImportsF (pvs : List IRVertex) (pfs : List Fold) : List Fold → Bool
     wfImportsC c && wfImportsF pvs pfs rest
 end
 
+/-- no `FieldRef` occurs twice -/
+def refsDistinct : List FieldRef → Bool
+  | [] => true
+  | r :: rest => !refMem r rest && refsDistinct rest
+
+mutual
+/-- clause 6, second half: the imported tags of every fold (at every depth) are pairwise distinct -/
+def wfImportsDistinctC : Component → Bool
+  | .mk _ _ _ fs _ => wfImportsDistinctF fs
+def wfImportsDistinctF : List Fold → Bool
+  | [] => true
+  | .mk _ _ _ _ _ c imports _ _ :: rest =>
+    refsDistinct imports && wfImportsDistinctC c && wfImportsDistinctF rest
+end
+
 /-! ### clause 7 -/
 
 def varsOk (vars : List (Name × QTy)) (filters : List IRFilter) : Bool :=
@@ -197,7 +214,7 @@ end
 def WF (q : IRQuery) : Bool :=
   wfNumberingC q.rootComponent && wfUnique q.rootComponent && wfIntervals q.rootComponent &&
   wfEndpointsC q.rootComponent && wfTagsC [] q.rootComponent && wfImportsC q.rootComponent &&
-  wfVarsC q.variables q.rootComponent
+  wfVarsC q.variables q.rootComponent && wfImportsDistinctC q.rootComponent
 
 /-! ### outputs (not a clause of C11; what `IndexedQuery::try_from` also checks) -/
 
